@@ -96,6 +96,33 @@ def sweep_task(args):
     return hits
 
 
+def skip_idiom_probes(rep, pest) -> None:
+    """A single-character literal as the terminator of the skip idiom (!T ~ ANY)* - what the optimizer turns into SkipUntil and
+    the generator into a list of terminators in the generated source - must stop exactly in front of T, for T ASCII, BMP,
+    astral, a quote, a backslash, a line break, in all four modes."""
+    terms = [("x", "x"), ("\\u{E9}", "\u00e9"), ("\\u{20AC}", "\u20ac"), ("\\u{1F600}", "\U0001f600"), ("\\u{10FFFF}", "\U0010ffff"), ('\\"', '"'), ("\\\\", "\\"), ("\\n", "\n"), ("'", "'"),
+             ("\\u{FFFF}", "\uffff"), ("\\u{10000}", "\U00010000"), ("\\0", "\x00"), ("]", "]"), ("^", "^")]
+    n = 0
+    for esc, ch in terms:
+        for shape, extra in ((f'(!"{esc}" ~ ANY)*', ""), (f'(!("{esc}" | "zz") ~ ANY)*', ""), (f'(!("zz" | "{esc}") ~ ANY)*', "")):
+            g = f"x = @{{ {shape} }}\n"
+            for mode in M.MODES:
+                try:
+                    p, _ = M.build(pest, g, mode)
+                except Exception as e:  # noqa: BLE001
+                    rep.violation({"kind": "skip-idiom", "grammar": g, "mode": mode}, f"{g!r} failed to build in mode {mode}: {type(e).__name__}: {e}")
+                    continue
+                for text, want in (("ab" + ch + "cd", 2), ("ab\U0001f601cd" + ch, 5), (ch, 0), ("abcd", 4), ("", 0), ("\ud83d" + ch, 1)):
+                    n += 1
+                    o = M.run_parse(pest, p, "x", text)
+                    got = o["pairs"][0][2] if o.get("ok") and o["pairs"] else None
+                    if got != want:
+                        rep.violation({"kind": "skip-idiom", "grammar": g, "mode": mode, "input": text, "expected_end": want, "observed": str(o)[:200]},
+                                      f"{g.strip()!r} [{mode}] on {text!r}: stops at {got}, the terminator U+{ord(ch):04X} is at {want}")
+    rep.evaluations += n
+    rep.extra["skip_idiom_probes"] = n
+
+
 def run(tier: str) -> int:  # noqa: PLR0912, PLR0915
     rep = C.Report("C12", tier)
     rep.distinct = None
@@ -108,6 +135,8 @@ def run(tier: str) -> int:  # noqa: PLR0912, PLR0915
     st = C.run_tlc("CharSets", cfg, workers=4, tag="CharSetsAlgebra", timeout=900)
     C.require_tlc_ok(st, "CharSets algebra")
     rep.add_tlc(st, "CharSets: MergeSound, UnionSound, ClassRelations")
+
+    skip_idiom_probes(rep, pest)
 
     # 2. denotations of the probe family (TLC) -> sweep
     probes = []
